@@ -12,12 +12,27 @@
    `compat fs A src`: no file/directory conflict between src and what already is at A (no prefix of A
    is a file; a directory of src does not meet a file, a file of src does not meet a directory). *)
 From Coq Require Import ZArith List Bool Permutation.
-From Verif Require Import Lib.Sx Model.ClientTree Proofs.ClientTree.
+From Verif Require Import Lib.Sx Model.ClientTree Proofs.ClientTree Gen.ClientWalks.
 Import ListNotations.
 Open Scope Z_scope.
 
 (* ---------------------------------------------------------------------------------------------- *)
-(* F1: the code as it is misplaces the children of an uploaded directory.
+(* The tie to the source.  tools/py2v/gen_client_walks.py re-reads client.py on every run (fail closed):
+   which of the two known computations of a child's destination Client.upload uses
+   (upload_relative_fixed: false = as found, finding F1; true = docs/fixes/C09-upload-destination.diff),
+   and that the rest of the path plumbing of upload/download is what the model transcribes. *)
+Definition repo_upload_fixed : bool := Gen.ClientWalks.upload_relative_fixed.
+(* the model of Client.upload as /repo has it NOW (this is what the harness runs against the real client) *)
+Definition repo_upload := upload_gen repo_upload_fixed.
+
+Lemma C09_source_obligations :
+  Gen.ClientWalks.translator_ok
+  && Gen.ClientWalks.upload_final_destination_ok && Gen.ClientWalks.upload_children_use_relative
+  && Gen.ClientWalks.download_final_destination_ok && Gen.ClientWalks.download_child_ok = true.
+Proof. vm_compute. reflexivity. Qed.
+
+(* ---------------------------------------------------------------------------------------------- *)
+(* F1: the code as found (upload = upload_gen false) misplaces the children of an uploaded directory.
    upload("foo","x") of foo={a} into an empty server: /x/foo stays empty, a lands in /foo;
    upload("foo","x/y",write_into=True): /x/y stays empty, a lands in /y. *)
 Theorem C09_upload_dir_refuted :
@@ -35,9 +50,9 @@ Theorem C09_upload_dir_refuted :
 Proof. exact upload_dir_refuted. Qed.
 Print Assumptions C09_upload_dir_refuted.
 
-(* What the code as it is does, for EVERY input: the directory is made at the destination A, and each
+(* What either version does, for EVERY input: the directory is made at the destination A, and each
    node of the source is placed (one mkdir -p / one mkdir -p + STOR per node, breadth first) below
-   A' = cwd/<last component of the destination>, not below A. *)
+   A' = the anchor: A itself after the fix, cwd/<last component of the destination> as found. *)
 Theorem C09_upload_dir_actual : forall fixed cwd fs nm ch dst wi chc,
   let dst' := final_destination nm dst wi in
   let A := resolve cwd dst' in
@@ -50,11 +65,33 @@ Theorem C09_upload_dir_actual : forall fixed cwd fs nm ch dst wi chc,
 Proof. exact upload_gen_dir_actual. Qed.
 Print Assumptions C09_upload_dir_actual.
 
-(* The full statement, for the code after docs/fixes/C09-upload-destination.diff (upload_fixed):
-   every tree (empty directories, empty files, equal names on different levels), every destination
+(* The statement about the code /repo has NOW (repo_upload, the form read from the source).
+   Every tree (empty directories, empty files, equal names on different levels), every destination
    (empty, one or several components, absolute), both write_into, every cwd: the upload succeeds
    (in particular it does not run out of fuel) and the remote file system is graft fs A src — below A
-   the source, the prefixes of A directories, and nothing else changed. *)
+   the source, the prefixes of A directories, and nothing else changed — PROVIDED the anchor of the
+   children is the destination.  With repo_upload_fixed = true (after the fix) that hypothesis reads
+   A = A (C09_upload_anchor_fixed) and this is the full statement of the property; with
+   repo_upload_fixed = false it is the carved part of C09_upload_dir_partial_domain. *)
+Theorem C09_upload_dir_spec_repo : forall cwd fs nm ch dst wi chc,
+  let dst' := final_destination nm dst wi in
+  let A := resolve cwd dst' in
+  resolve cwd (upload_anchor repo_upload_fixed wi dst' nm) = A ->
+  lookup fs cwd = Some (Dir chc) ->
+  wf_tree (Dir ch) ->
+  compat fs A (Dir ch) ->
+  exists fs', repo_upload cwd fs nm (Dir ch) dst wi = Ok fs' /\
+              (forall q, look fs' q = look (graft fs A (Dir ch)) q) /\
+              (forall q, look fs' q = placed fs A (Dir ch) q).
+Proof. exact (upload_gen_dir_spec_full repo_upload_fixed). Qed.
+Print Assumptions C09_upload_dir_spec_repo.
+
+Theorem C09_upload_anchor_fixed : forall wi dst' nm, upload_anchor true wi dst' nm = dst'.
+Proof. exact upload_anchor_fixed. Qed.
+Print Assumptions C09_upload_anchor_fixed.
+
+(* The full statement, for the code after docs/fixes/C09-upload-destination.diff (upload_fixed =
+   upload_gen true): no anchor hypothesis. *)
 Theorem C09_upload_spec_fixed : forall cwd fs nm ch dst wi chc,
   let A := resolve cwd (final_destination nm dst wi) in
   lookup fs cwd = Some (Dir chc) ->
@@ -63,14 +100,25 @@ Theorem C09_upload_spec_fixed : forall cwd fs nm ch dst wi chc,
   exists fs', upload_fixed cwd fs nm (Dir ch) dst wi = Ok fs' /\
               (forall q, look fs' q = look (graft fs A (Dir ch)) q) /\
               (forall q, look fs' q = placed fs A (Dir ch) q).
-Proof.
-  intros cwd fs nm ch dst wi chc A Hc W C.
-  destruct (upload_spec_fixed cwd fs nm ch dst wi chc Hc W C) as (fs' & E & V).
-  exists fs'. repeat split; auto. intro q. rewrite V. symmetry. apply graft_placed; assumption.
-Qed.
+Proof. exact upload_spec_fixed_full. Qed.
 Print Assumptions C09_upload_spec_fixed.
 
-(* The code as it is meets the same statement exactly when the anchor of the children coincides with
+(* ONCE THE FIX IS IN /repo (Gen.ClientWalks.upload_relative_fixed = true) the following closes as it
+   stands (repo_upload then converts to upload_fixed); until then it does not typecheck, which is finding F1:
+
+Theorem C09_upload_spec : forall cwd fs nm ch dst wi chc,
+  let A := resolve cwd (final_destination nm dst wi) in
+  lookup fs cwd = Some (Dir chc) ->
+  wf_tree (Dir ch) ->
+  compat fs A (Dir ch) ->
+  exists fs', repo_upload cwd fs nm (Dir ch) dst wi = Ok fs' /\
+              (forall q, look fs' q = look (graft fs A (Dir ch)) q) /\
+              (forall q, look fs' q = placed fs A (Dir ch) q).
+Proof. exact upload_spec_fixed_full. Qed.
+Print Assumptions C09_upload_spec.
+*)
+
+(* The code as found meets the same statement exactly when the anchor of the children coincides with
    the destination ... *)
 Theorem C09_upload_dir_spec_partial : forall cwd fs nm ch dst wi chc,
   let dst' := final_destination nm dst wi in
@@ -82,11 +130,7 @@ Theorem C09_upload_dir_spec_partial : forall cwd fs nm ch dst wi chc,
   exists fs', upload cwd fs nm (Dir ch) dst wi = Ok fs' /\
               (forall q, look fs' q = look (graft fs A (Dir ch)) q) /\
               (forall q, look fs' q = placed fs A (Dir ch) q).
-Proof.
-  intros cwd fs nm ch dst wi chc dst' A EA Hc W C.
-  destruct (upload_dir_spec_partial cwd fs nm ch dst wi chc EA Hc W C) as (fs' & E & V).
-  exists fs'. repeat split; auto. intro q. rewrite V. symmetry. apply graft_placed; assumption.
-Qed.
+Proof. exact upload_dir_spec_partial_full. Qed.
 Print Assumptions C09_upload_dir_spec_partial.
 
 (* ... which holds for: write_into with a relative destination of at most one component; no
@@ -142,11 +186,7 @@ Theorem C09_remove_spec : forall cwd t fuel fs p,
   remove fuel cwd fs p = Ok (remove_at fs (resolve cwd p)) /\
   (forall q, is_prefix (resolve cwd p) q = false -> look (remove_at fs (resolve cwd p)) q = look fs q) /\
   (wf_tree fs -> forall r, look (remove_at fs (resolve cwd p)) (resolve cwd p ++ r) = None).
-Proof.
-  intros cwd t fuel fs p Hf L Ha. split; [apply (remove_exact cwd t); assumption|]. split.
-  - intros q P. apply look_remove_at_other. assumption.
-  - intros W r. eapply look_remove_at_gone; eauto.
-Qed.
+Proof. exact remove_spec_full. Qed.
 Print Assumptions C09_remove_spec.
 
 (* ---------------------------------------------------------------------------------------------- *)
@@ -164,11 +204,7 @@ Theorem C09_download_spec : forall cwd rfs lcwd lfs src dst wi t fuel,
   (is_dir t = false -> p_parts dst' <> []) ->
   download fuel cwd rfs lcwd lfs src dst wi = Ok (graft lfs A t) /\
   (no_file_on lfs A -> forall q, look (graft lfs A t) q = placed lfs A t q).
-Proof.
-  intros cwd rfs lcwd lfs src dst wi t fuel dst' A Hf L W NF K HP. split.
-  - apply download_spec; assumption.
-  - intros NFA q. apply graft_placed; [assumption|]. split; assumption.
-Qed.
+Proof. exact download_spec_full. Qed.
 Print Assumptions C09_download_spec.
 
 (* the fuel the harness interface gives (the node count of the whole file system) is enough for every
@@ -179,7 +215,9 @@ Print Assumptions C09_fuel_enough.
 
 (* ---------------------------------------------------------------------------------------------- *)
 (* non-vacuity: the hypotheses are satisfiable on a non-trivial state (a fresh destination x/y under
-   cwd /w, a source with an empty directory, an empty file and equal names on two levels) *)
+   cwd /w, a source with an empty directory, an empty file and equal names on two levels); the anchor
+   hypothesis of C09_upload_dir_spec_repo is satisfiable for either form of the code (destination x,
+   write_into) *)
 Example C09_hypotheses_satisfiable :
   let fs := Dir [([119], Dir [([111], File [1])])] in
   let src := [(n_a, Dir [(n_a, File []); (n_x, Dir [])]); (n_x, File [7])] in
@@ -187,12 +225,7 @@ Example C09_hypotheses_satisfiable :
   wf_tree (Dir src) /\
   compat fs (resolve [[119]] (final_destination n_foo (mkp false [n_x; n_y]) false)) (Dir src) /\
   upload_fixed [[119]] fs n_foo (Dir src) (mkp false [n_x; n_y]) false
-  = Ok (graft fs [[119]; n_x; n_y; n_foo] (Dir src)).
-Proof.
-  cbv zeta. split; [reflexivity|]. split.
-  - simpl. repeat (split || constructor); simpl; intuition discriminate.
-  - split; [|vm_compute; reflexivity].
-    apply compat_fresh; [|reflexivity].
-    intros q P c. apply is_prefix_true in P as [r P].
-    destruct q as [|q1 [|q2 [|q3 [|q4 [|q5 q]]]]]; simpl in P; inversion P; subst; vm_compute; discriminate.
-Qed.
+  = Ok (graft fs [[119]; n_x; n_y; n_foo] (Dir src)) /\
+  (forall fixed, resolve [[119]] (upload_anchor fixed true (final_destination n_foo (mkp false [n_x]) true) n_foo)
+                 = resolve [[119]] (final_destination n_foo (mkp false [n_x]) true)).
+Proof. exact hypotheses_satisfiable. Qed.
